@@ -248,7 +248,7 @@ class Stepper:
                 hook("after", self.k)
 
 
-async def run_with_cancel(flavor: str, make_coro, style: str | None, k: int | None):
+async def run_with_cancel(flavor: str, make_coro, style: str | None, k: int | None, on_fire=None):
     """Run make_coro() as the victim; inject one cancellation of `style` at suspension
     point k. Returns (Outcome, total_yields)."""
     state = {"fired": False}
@@ -271,6 +271,8 @@ async def run_with_cancel(flavor: str, make_coro, style: str | None, k: int | No
         def hook(ph, n):
             if not state["fired"] and ph == phase and n == k:
                 state["fired"] = True
+                if on_fire is not None:
+                    on_fire()
                 scope.cancel()
 
         st = Stepper(make_coro(), hook)
@@ -289,6 +291,8 @@ async def run_with_cancel(flavor: str, make_coro, style: str | None, k: int | No
         def hook(ph, n):
             if not state["fired"] and ph == "before" and n == k:
                 state["fired"] = True
+                if on_fire is not None:
+                    on_fire()
                 holder["task"].cancel()
 
         st = Stepper(make_coro(), hook)
